@@ -55,6 +55,20 @@ fn render_due() -> bool {
         v < 2000 || v % 61 == 0
     })
 }
+/// What `{}` shows must not depend on formatter flags the caller happens to have set for the whole value: a composite value
+/// written field by field ignores sign, zero-fill and (being longer than 3 characters) a minimum width of 3. A field that is
+/// handed the caller's formatter directly would pick them up ("+1460", "007").
+pub fn shown<T: std::fmt::Display>(kind: &str, x: &T) -> String {
+    let plain = x.to_string();
+    let flagged = format!("{x:+03}");
+    if plain.len() >= 3 && flagged != plain {
+        if let Ok(mut g) = RENDER_ISSUES.lock() {
+            let e = g.entry(format!("render/{kind}/rendering-depends-on-the-callers-format-flags")).or_insert((0, format!("`{{}}` shows {plain:?}, `{{:+03}}` shows {flagged:?}")));
+            e.0 += 1;
+        }
+    }
+    plain
+}
 /// `tokens` (name, text) must occur in `shown` in this order, each delimited by non-alphanumeric characters
 pub fn render_check(kind: &str, shown: &str, tokens: &[(&str, String)]) {
     let b = shown.as_bytes();
@@ -123,16 +137,16 @@ pub fn tcp_parts(
             if let Some(os) = &s.os_matched.os {
                 tk.push(("os-name", os.name.clone()));
             }
-            tk.push(("signature", s.sig.matching.to_string()));
-            render_check("tcp-syn", &s.to_string(), &tk);
+            tk.push(("signature", shown("tcp-signature", &s.sig.matching)));
+            render_check("tcp-syn", &shown("tcp-syn", s), &tk);
         }
         if let Some(s) = syn_ack {
             let mut tk = ends(&s.source.ip, s.source.port, &s.destination.ip, s.destination.port);
             if let Some(os) = &s.os_matched.os {
                 tk.push(("os-name", os.name.clone()));
             }
-            tk.push(("signature", s.sig.matching.to_string()));
-            render_check("tcp-syn-ack", &s.to_string(), &tk);
+            tk.push(("signature", shown("tcp-signature", &s.sig.matching)));
+            render_check("tcp-syn-ack", &shown("tcp-syn-ack", s), &tk);
         }
         if let Some(m) = mtu {
             let mut tk = ends(&m.source.ip, m.source.port, &m.destination.ip, m.destination.port);
@@ -140,13 +154,13 @@ pub fn tcp_parts(
                 tk.push(("link", l.clone()));
             }
             tk.push(("mtu", m.mtu.to_string()));
-            render_check("tcp-mtu", &m.to_string(), &tk);
+            render_check("tcp-mtu", &shown("tcp-mtu", m), &tk);
         }
         for u in [client_uptime, server_uptime].into_iter().flatten() {
             let mut tk = vec![("role", format!("{:?}", u.role))];
             tk.extend(ends(&u.source.ip, u.source.port, &u.destination.ip, u.destination.port));
             tk.extend([("days", u.days.to_string()), ("hours", u.hours.to_string()), ("minutes", u.min.to_string()), ("wrap-days", u.up_mod_days.to_string()), ("frequency", format!("{:.2}", u.freq))]);
-            render_check("tcp-uptime", &u.to_string(), &tk);
+            render_check("tcp-uptime", &shown("tcp-uptime", u), &tk);
         }
     }
     if let Some(s) = syn {
@@ -263,13 +277,13 @@ macro_rules! render_http {
                 if let Some(l) = &q.lang {
                     tk.push(("language", l.clone()));
                 }
-                tk.push(("signature", q.sig.to_string()));
-                render_check("http-request", &q.to_string(), &tk);
+                tk.push(("signature", shown("http-request-signature", &q.sig)));
+                render_check("http-request", &shown("http-request", q), &tk);
             }
             if let Some(q) = &$r.http_response {
                 let mut tk = ends(&q.source.ip, q.source.port, &q.destination.ip, q.destination.port);
-                tk.push(("signature", q.sig.to_string()));
-                render_check("http-response", &q.to_string(), &tk);
+                tk.push(("signature", shown("http-response-signature", &q.sig)));
+                render_check("http-response", &shown("http-response", q), &tk);
             }
         }
     };
@@ -352,7 +366,7 @@ pub fn tls_out(o: &huginn_net_tls::TlsClientOutput) -> TlsRes {
             tk.push(("sni", sni.clone()));
         }
         tk.extend([("ja4", o.sig.ja4.full.value().to_string()), ("ja4_r", o.sig.ja4.raw.value().to_string()), ("ja4_o", o.sig.ja4_original.full.value().to_string()), ("ja4_or", o.sig.ja4_original.raw.value().to_string())]);
-        render_check("tls-client", &o.to_string(), &tk);
+        render_check("tls-client", &shown("tls-client", o), &tk);
     }
     let mut t = TlsRes { src: Some(ipport(&o.source.ip, o.source.port)), dst: Some(ipport(&o.destination.ip, o.destination.port)), ..Default::default() };
     tls_client(&o.sig, &mut t);
